@@ -4,6 +4,7 @@ import ExprModel.Proofs.ParserMono
 import ExprModel.Proofs.ParserFuel
 import ExprModel.Proofs.ParserCanonAll2
 import ExprModel.Proofs.ParserErase5
+import ExprModel.Proofs.ParseLayout5
 import ExprModel.Syntax.ParserNum
 import ExprModel.Props.C12
 /-
@@ -62,7 +63,7 @@ theorem tables_ok : TbOK Gen.parserTables := tbOK_of_check (by decide +kernel)
 structure Setting (cfg : Cfg) (sh : NumShow) : Prop where
   tables : cfg.tb = Gen.parserTables
   int_rt : ∀ n : Nat, n < 2 ^ 63 → cfg.num (sh.showInt n) = some (.int n)
-  float_rt : ∀ b : UInt64, cfg.num (sh.showFloat b) = some (.float b)
+  float_rt : ∀ b : UInt64, floatLit b = true → cfg.num (sh.showFloat b) = some (.float b)
 
 theorem Setting.hyp {cfg : Cfg} {sh : NumShow} (s : Setting cfg sh) : Hyp cfg sh :=
   ⟨s.tables ▸ tables_ok, s.int_rt, s.float_rt⟩
@@ -83,7 +84,7 @@ theorem parse_print {cfg : Cfg} {sh : NumShow} (hs : Setting cfg sh) (t : Node) 
     integers are printed in decimal; only `strconv.ParseFloat`/`FormatFloat` remain a parameter (`pf`, `sf`,
     constrained by: a printed float is classified as a float and reads back as itself). -/
 theorem parse_print_lexnum (pf : String → Option UInt64) (sf : UInt64 → String) (bad : String → Bool)
-    (hfloat : ∀ b, numVia Gen.numCfg pf (sf b) = some (.float b))
+    (hfloat : ∀ b, floatLit b = true → numVia Gen.numCfg pf (sf b) = some (.float b))
     (t : Node) (pc : ParenChoice) (l : Loc) :
     let cfg : Cfg := { tb := Gen.parserTables, num := numVia Gen.numCfg pf, badRegex := bad }
     let sh : NumShow := { showInt := fun n => C12.decimalSpelling n [], showFloat := sf }
@@ -143,9 +144,10 @@ theorem builtin_arities : ∀ n ar, Gen.parserTables.builtins.lookup n = some ar
 structure ImageSetting (cfg : Cfg) : Prop where
   tables : cfg.tb = Gen.parserTables
   num_ok : ∀ s v, cfg.num s = some (.int v) → 0 ≤ v ∧ v < 9223372036854775808
+  float_ok : ∀ s b, cfg.num s = some (.float b) → floatLit b = true
 
 theorem ImageSetting.hyp {cfg : Cfg} (h : ImageSetting cfg) : ImgHyp cfg :=
-  ⟨h.num_ok, by rw [h.tables]; exact builtin_arities⟩
+  ⟨h.num_ok, h.float_ok, by rw [h.tables]; exact builtin_arities⟩
 
 /-- **The image of the parser is canonical**: whatever tree the parser model returns — for any fuel and any
     token list whose EOF tokens do not carry the value `?.` (the lexer's EOF has the empty value) — satisfies
@@ -216,6 +218,71 @@ theorem parse_erase {cfg : Cfg} {sh : NumShow} (hi : ImageSetting cfg) (ts0 : Li
   | error e => rw [hp] at h; cases h
   | outOfFuel => rw [hp] at h; cases h
 
+/-! ### White space never changes the tree (text level)
+
+The theorems above are about token lists.  Composed with the lexer model of C12 (`Lex.lex`, with the tables
+`Gen.lexTables` regenerated from the lexer source and any ASCII-exact classification `cc` of runes): -/
+
+/-- **Locations do not matter to the parser**: token lists with the same kinds and values are accepted together
+    and give trees that differ only in locations (`Node.eraseLoc`). -/
+theorem parse_locations_irrelevant (cfg : Cfg) {ts ts' : List Token} (h : noLocs ts = noLocs ts') {t : Node}
+    (ht : parse cfg ts = .ok t) : ∃ t', parse cfg ts' = .ok t' ∧ t'.eraseLoc = t.eraseLoc :=
+  parse_same_text cfg h ht
+
+/-- **whitespace_invariance.**  Print a canonical tree `t` with any redundant parentheses; write the `i`-th token
+    in its canonical spelling `tokRaw` (identifiers, keywords, operators and brackets as they are, decimal
+    integers, string literals in double quotes) after the white space `gaps[i]`, and `trail` at the end —
+    any runs of `IsSpace` runes, including none, as long as neighbouring tokens do not fuse (`NoFuse`: after an
+    identifier, keyword or number no alphanumeric rune (nor `.` after a number); after `?` no `.`; after `?.` no
+    `?`/`.`; after `.` no `.`/digit; after `<`, `>`, `!`, `*` none of `& | = *`; after `not` not blanks-`in`-blank;
+    after `not in` a blank or the end).  Then `lex` yields the printed tokens up to locations and `parse` yields
+    `t` up to locations.  Hypothesis `hprint`: every printed token has a proved spelling (`Printable`: all but
+    float literals and identifiers that collide with keywords). -/
+theorem whitespace_invariance {cfg : Cfg} {sh : NumShow} (hs : Setting cfg sh) (t : Node) (hc : canon cfg 0 t = true)
+    (pc : ParenChoice) (cc : Lex.CharClass) (hcc : cc.AsciiExact) (gaps : List (List Char)) (trail : List Char)
+    (hlen : (pr cfg sh pc [] 0 (eofAt {}) t).length = gaps.length)
+    (hprint : ∀ x ∈ pr cfg sh pc [] 0 (eofAt {}) t, Printable cc x)
+    (hsep : NoFuse cc (pr cfg sh pc [] 0 (eofAt {}) t) gaps trail) :
+    ∃ toks t', Lex.lex cc Gen.lexTables
+        (String.ofList (Lex.renderItems (layoutItems (pr cfg sh pc [] 0 (eofAt {}) t) gaps) trail)) = .ok toks ∧
+      noLocs toks = noLocs (printEof cfg sh pc {} t) ∧
+      parse cfg toks = .ok t' ∧ t'.eraseLoc = t.eraseLoc := by
+  rw [C12.tables_pinned]
+  exact lex_parse_text cfg sh hs.hyp t hc pc cc hcc gaps trail hlen hprint hsep
+
+/-- **The syntactic layout rule** (the harness's `needSpace`, as a theorem): it is enough to look at each pair of
+    neighbouring tokens.  `SepOK`: every gap is white space; where the gap between two tokens is EMPTY the
+    spelling of the second must not continue the first (`tokOk` of the first on the spelling of the second:
+    identifier/keyword/number before an alphanumeric rune, number before `.`, `?` before `.`, `?.` before
+    `?`/`.`, `.` before `.`/digit, one of `< > ! *` before one of `& | = *`); `not in` is followed by U+0020 (or
+    ends the text); `not` is not directly followed by the token `in`.  Any non-empty gap separates (for a
+    classification in which no white space is alphanumeric, as in Go's `unicode` tables). -/
+theorem layout_rule (cc : Lex.CharClass) (hcc : cc.AsciiExact) (hsw : SpaceNotWord cc)
+    (ts : List Token) (gaps : List (List Char)) (trail : List Char) (hlen : ts.length = gaps.length)
+    (hprint : ∀ x ∈ ts, Printable cc x) (hsep : SepOK cc ts gaps trail) : NoFuse cc ts gaps trail :=
+  noFuse_of_sepOK hcc hsw ts gaps trail hlen hprint hsep
+
+/-- `whitespace_invariance` with the syntactic rule -/
+theorem whitespace_invariance_rule {cfg : Cfg} {sh : NumShow} (hs : Setting cfg sh) (t : Node)
+    (hc : canon cfg 0 t = true) (pc : ParenChoice) (cc : Lex.CharClass) (hcc : cc.AsciiExact)
+    (hsw : SpaceNotWord cc) (gaps : List (List Char)) (trail : List Char)
+    (hlen : (pr cfg sh pc [] 0 (eofAt {}) t).length = gaps.length)
+    (hprint : ∀ x ∈ pr cfg sh pc [] 0 (eofAt {}) t, Printable cc x)
+    (hsep : SepOK cc (pr cfg sh pc [] 0 (eofAt {}) t) gaps trail) :
+    ∃ toks t', Lex.lex cc Gen.lexTables
+        (String.ofList (Lex.renderItems (layoutItems (pr cfg sh pc [] 0 (eofAt {}) t) gaps) trail)) = .ok toks ∧
+      noLocs toks = noLocs (printEof cfg sh pc {} t) ∧
+      parse cfg toks = .ok t' ∧ t'.eraseLoc = t.eraseLoc :=
+  whitespace_invariance hs t hc pc cc hcc gaps trail hlen hprint (layout_rule cc hcc hsw _ gaps trail hlen hprint hsep)
+
+/-- What is left of the text-level statement: float literals.  Their spelling is a parameter of the printer
+    (`showFloat`), so `Printable` excludes them; what is needed is that a well-formed decimal/exponent spelling
+    (C12's `FloatParts`, lexed there alone in the source: `float_lexes`) is read back whatever follows it that is
+    not alphanumeric and not `.` — the analogue of `Lex.spells_decimal`. -/
+def float_spelling_goal : Prop :=
+  ∀ (cc : Lex.CharClass), cc.AsciiExact → ∀ (p : Lex.FloatParts), p.WF →
+    Lex.Spells cc .number (String.ofList p.text) p.text (Lex.IntFollow cc)
+
 /-! ### Non-vacuity and the witness of the one deviation found -/
 
 /-- a concrete setting: decimal integers, one float spelling -/
@@ -254,6 +321,151 @@ theorem paren_ident_nilsafe_witness :
       [lparen, tok .identifier "a", rparen, tok .operator "?.", tok .identifier "b", eofTok]) =
         some ("a", false, "b", true) := by
   decide +kernel
+
+/-! #### `Setting ∧ ImageSetting` is inhabited by a non-constant number conversion
+
+An artificial but total pair: the integer `n` is spelled as `n` letters `i`, the float with bit pattern `b` as
+`f` followed by `b` letters `i`; `unaryNum` reads both back and nothing else.  (The real conversions are Go's
+strconv functions: integers are covered by `parse_print_lexnum`, floats stay a parameter.) -/
+
+def unaryShow : NumShow :=
+  { showInt := fun n => String.ofList (List.replicate n 'i'),
+    showFloat := fun b => String.ofList ('f' :: List.replicate b.toNat 'i') }
+
+def unaryNum (s : String) : Option NumVal :=
+  if s.toList.head? = some 'f' then
+    (if s.toList.tail.all (· == 'i') && floatLit (UInt64.ofNat s.toList.tail.length) &&
+        decide (s.toList.tail.length < 2 ^ 64)
+     then some (.float (UInt64.ofNat s.toList.tail.length)) else none)
+  else if s.toList.all (· == 'i') && decide (s.toList.length < 2 ^ 63) then some (.int s.toList.length) else none
+
+def unaryCfg : Cfg := { tb := Gen.parserTables, num := unaryNum }
+
+private theorem all_replicate_i (n : Nat) : (List.replicate n 'i').all (· == 'i') = true := by
+  induction n with
+  | zero => rfl
+  | succ n ih => simp [List.replicate_succ, ih]
+
+private theorem head_replicate_i (n : Nat) : (List.replicate n 'i').head? ≠ some 'f' := by
+  cases n with
+  | zero => simp
+  | succ n => simp [List.replicate_succ]
+
+theorem unary_setting : Setting unaryCfg unaryShow ∧ ImageSetting unaryCfg := by
+  refine ⟨⟨rfl, ?_, ?_⟩, ⟨rfl, ?_, ?_⟩⟩
+  · intro n hn
+    show unaryNum (String.ofList (List.replicate n 'i')) = some (.int n)
+    unfold unaryNum
+    simp only [String.toList_ofList, if_neg (head_replicate_i n), all_replicate_i, List.length_replicate,
+      Bool.true_and, decide_eq_true_eq]
+    rw [if_pos hn]
+  · intro b hb
+    show unaryNum (String.ofList ('f' :: List.replicate b.toNat 'i')) = some (.float b)
+    unfold unaryNum
+    have hlt : b.toNat < 2 ^ 64 := b.toNat_lt
+    simp only [String.toList_ofList, List.head?_cons, if_true, List.tail_cons, all_replicate_i,
+      List.length_replicate, UInt64.ofNat_toNat, hb, Bool.true_and, decide_eq_true_eq]
+    rw [if_pos hlt]
+  · intro s v h
+    unfold unaryCfg unaryNum at h
+    simp only at h
+    split at h
+    · split at h <;> cases h
+    · split at h
+      · next hc =>
+        cases h
+        simp only [Bool.and_eq_true, decide_eq_true_eq] at hc
+        exact ⟨Int.natCast_nonneg _, by have := hc.2; omega⟩
+      · cases h
+  · intro s b h
+    unfold unaryCfg unaryNum at h
+    simp only at h
+    split at h
+    · split at h
+      · next hc =>
+        cases h
+        simp only [Bool.and_eq_true] at hc
+        exact hc.1.2
+      · cases h
+    · split at h <;> cases h
+
+/-- the conversion is not constant: `3` and `1.5` print differently and read back -/
+example : unaryShow.showInt 3 = "iii" ∧ unaryShow.showFloat 2 = "fii" ∧
+    unaryShow.showFloat 2 ≠ unaryShow.showFloat 3 ∧ (unaryNum "fii").isSome = true ∧ (unaryNum "fx").isSome = false := by
+  decide +kernel
+
+/-! #### a concrete instance of `whitespace_invariance`: `a?.b+not<TAB>c<NEWLINE>` -/
+
+def wsTree : Node :=
+  .binary {} "+" (.prop {} (.ident {} "a" true) "b" true) (.unary {} "not" (.ident {} "c" false))
+
+def wsGaps : List (List Char) := [[], [], [], [], [], ['\t']]
+
+private theorem wsTokens : pr unaryCfg unaryShow (fun _ => 0) [] 0 (eofAt {}) wsTree =
+    [tok .identifier "a", tok .operator "?.", tok .identifier "b", tok .operator "+", tok .operator "not",
+     tok .identifier "c"] := by decide +kernel
+
+example : String.ofList (Lex.renderItems (layoutItems (pr unaryCfg unaryShow (fun _ => 0) [] 0 (eofAt {}) wsTree)
+    wsGaps) ['\n']) = "a?.b+not\tc\n" := by decide +kernel
+
+private theorem printable_ident1 (c : Char) (h : Lex.CharClass.asciiLetter c = true)
+    (hk : Lex.LexTables.std.kwOps.contains (String.ofList [c]) = false) :
+    Printable Lex.CharClass.ascii (tok .identifier (String.ofList [c])) := by
+  refine ⟨c, [], by simp [tok], Lex.idStart_ascii (Lex.CharClass.ofRanges_asciiExact [] [] []) (Or.inl h),
+    by simp, ?_, hk⟩
+  intro he
+  have := congrArg String.length he
+  simp [tok] at this
+  exact absurd this (by decide)
+
+/-- the hypotheses of `whitespace_invariance` are satisfiable with tight and unusual white space -/
+example : ∃ toks t', Lex.lex Lex.CharClass.ascii Gen.lexTables "a?.b+not\tc\n" = .ok toks ∧
+    parse unaryCfg toks = .ok t' ∧ t'.eraseLoc = wsTree.eraseLoc := by
+  have hcc := Lex.CharClass.ofRanges_asciiExact [] [] []
+  have h := whitespace_invariance unary_setting.1 wsTree (by decide +kernel) (fun _ => 0) Lex.CharClass.ascii hcc
+    wsGaps ['\n'] (by rw [wsTokens]; rfl)
+    (by
+      rw [wsTokens]
+      intro x hx
+      simp only [List.mem_cons, List.mem_nil_iff, or_false] at hx
+      rcases hx with rfl | rfl | rfl | rfl | rfl | rfl
+      · exact printable_ident1 'a' (by decide) (by decide)
+      · show "?." ∈ opValues; decide
+      · exact printable_ident1 'b' (by decide) (by decide)
+      · show "+" ∈ opValues; decide
+      · show "not" ∈ opValues; decide
+      · exact printable_ident1 'c' (by decide) (by decide))
+    (by
+      rw [wsTokens]
+      refine ⟨by simp, ?_, by simp, ?_, by simp, ?_, by simp, ?_, by simp, ?_, (by intro c hc'; simp [wsGaps] at hc'; subst hc'; decide), ?_, ?_⟩
+      · -- `a` then `?.`
+        intro x hx; simp [layoutItems, Lex.renderItems, tokRaw, tok] at hx; subst hx; decide
+      · -- `?.` then `b`
+        show ∀ c, _ → _
+        intro c hc'; simp [layoutItems, Lex.renderItems, tokRaw, tok, wsGaps] at hc'; subst hc'; decide
+      · intro x hx; simp [layoutItems, Lex.renderItems, tokRaw, tok, wsGaps] at hx; subst hx; decide
+      · trivial
+      · -- `not` then TAB `c`
+        show Lex.NotFollow _ _
+        refine ⟨?_, ?_⟩
+        · intro x hx; simp [layoutItems, Lex.renderItems, tokRaw, tok, wsGaps] at hx; subst hx; decide
+        · rintro ⟨mid, r', hm, he, _⟩
+          simp [layoutItems, Lex.renderItems, tokRaw, tok, wsGaps] at he
+          cases mid with
+          | nil => simp at he
+          | cons c cs =>
+            simp at he
+            have := hm c (by simp)
+            rw [← he.1] at this
+            exact absurd this (by decide)
+      · intro x hx; simp [layoutItems, Lex.renderItems, tokRaw, tok, wsGaps] at hx; subst hx; decide
+      · intro c hc'; simp at hc'; subst hc'; decide)
+  obtain ⟨toks, t', h1, _, h3, h4⟩ := h
+  refine ⟨toks, t', ?_, h3, h4⟩
+  have : String.ofList (Lex.renderItems (layoutItems (pr unaryCfg unaryShow (fun _ => 0) [] 0 (eofAt {}) wsTree)
+      wsGaps) ['\n']) = "a?.b+not\tc\n" := by decide +kernel
+  rw [this] at h1
+  exact h1
 
 def identNs : Outcome → Option Bool
   | .ok (.ident _ _ ns) => some ns
